@@ -415,6 +415,55 @@ lazy_static::lazy_static! {
     ]);
 }
 
+/// Verification hooks (add-only, `--cfg john_yu_sm9_core_verif`): public wrappers around
+/// the private items of this module.
+#[cfg(john_yu_sm9_core_verif)]
+pub mod verif_hooks {
+    use super::*;
+    pub fn loop_count() -> &'static [u8] {
+        &SM9_LOOP_COUNT
+    }
+    pub fn fq12_pow(a: &Fq12, e: u128) -> Fq12 {
+        a.pow(e)
+    }
+    pub fn final_exponentiation_first_chunk(a: &Fq12) -> Option<Fq12> {
+        a.final_exponentiation_first_chunk()
+    }
+    pub fn final_exponentiation_last_chunk(a: &Fq12) -> Fq12 {
+        a.final_exponentiation_last_chunk()
+    }
+    pub fn final_exp_last_chunk(a: &Fq12) -> Fq12 {
+        a.final_exp_last_chunk()
+    }
+    pub fn point_pi1(a: &G2) -> G2 {
+        a.point_pi1()
+    }
+    pub fn point_pi2(a: &G2) -> G2 {
+        a.point_pi2()
+    }
+    pub fn eval_g_tangent(t: &G2, p: &G1) -> (Fq12, Fq12) {
+        t.eval_g_tangent(p)
+    }
+    pub fn eval_g_line(t: &G2, q: &G2, p: &G1) -> (Fq12, Fq12) {
+        t.eval_g_line(q, p)
+    }
+    pub fn q_power_frobenius(a: &G2, f: &Fq2) -> Option<G2> {
+        a.q_power_frobenius(f)
+    }
+    pub fn g_line(t: &mut G2, q: &G2) -> (Fq2, Fq2, Fq2) {
+        t.g_line(q)
+    }
+    pub fn g_tangent(t: &mut G2) -> (Fq2, Fq2, Fq2) {
+        t.g_tangent()
+    }
+    pub fn prepared_coeffs(p: &G2Prepared) -> &[(Fq2, Fq2, Fq2)] {
+        &p.coeffs
+    }
+    pub fn prepared_from_coeffs(coeffs: Vec<(Fq2, Fq2, Fq2)>) -> G2Prepared {
+        G2Prepared { coeffs }
+    }
+}
+
 /* ************************************************************************************************ */
 #[cfg(test)]
 mod tests {
